@@ -222,7 +222,8 @@ class Section(Error):
             resolved_field = self.assign.get(command, field_name)
             apply_action(target, operation, key, self.scope, name, command, insert, resolved_field)
             return True
-        except ValueError as exc:
+        except (ValueError, OSError) as exc:
+            # OSError: socket.inet_pton on a malformed address (1.2.3.256, 10.0.0/24)
             return self.error.set(str(exc))
 
     # Schema-based methods
